@@ -7,7 +7,7 @@ import plotgen as G
 from common import fb, close, canon_hash
 
 ID = "C19"
-SECTIONS = ["ops"]
+SECTIONS = ["ops", "fitters", "plot"]
 LEAN_MODULES = ["QExPy.Props.C19"]
 THEOREMS = ["QExPy.Plot.C19_mask", "QExPy.Plot.C19_mask_none", "QExPy.Plot.C19_dataset_draw",
             "QExPy.Plot.C19_linspace", "QExPy.Plot.C19_band", "QExPy.Plot.C19_function_range",
@@ -31,8 +31,9 @@ ASSUMPTIONS = ["matplotlib draws what its artists hold (Agg rasterisation is not
                "of a 10000-sample mean, fixed seeds, second-order bias allowance): a test, not a proof",
                "theorems over the reals; binary64 rounding compared under the FB bound / 1e-9 relative"]
 TRUSTED = ["exercised not modelled: matplotlib artists API, numpy.histogram, numpy.linspace",
-           "fit formulas of the pre-set models are hand-mirrored from FITTERS and guarded by a "
-           "source-text comparison (vf/plotgen.py: fitters_guard)"]
+           "the fit formulas of the pre-set models are the generated Gen.fitRule (translator "
+           "section fitters); curve length, x-range mask test and axis-label format are generated "
+           "(section plot)"]
 LEVEL_TEXT = ("Lean 4 theorems about an executable render model (mask, linspace, domain, band, "
               "histogram totals, labels, order independence); correspondence-led: the model's draw "
               "commands are diffed with the matplotlib artists of the real plot on every run")
@@ -393,12 +394,7 @@ def run_cases(ctx, cases):
     import qexpy as q
     if not G.self_test_parse_band(np):
         raise RuntimeError("fill_between polygon layout is not the one the artist reader expects")
-    ok, got = G.fitters_guard()
     failures, nontrivial, skipped = [], set(), 0
-    if not ok:
-        failures.append({"signature": "c19:fitters-source-changed", "kind": "disagreement",
-                         "what": "FITTERS differs from the source the model's fit formulas mirror",
-                         "impl": got, "expected": G._EXPECTED_FITTERS, "input": "qexpy/fitting/utils.py"})
     if len(cases) > 150:
         obs = _observe_parallel(cases)
     else:
